@@ -307,6 +307,9 @@ class extract_visitor(NodeVisitor):
                 for inode in g.ifs:
                     self.visit_in_flow(inode, p)
 
+        # the element is evaluated after the conditions of the last generator:
+        # names bound there (walrus) are visible in it whatever their position
+        p = self.make_flow('comp-elt', [p])
         elt = getattr(node, 'elt', None) or node.value  # type: ast.AST # type: ignore[union-attr]
         self.visit_in_flow(elt, p)
 
